@@ -50,6 +50,7 @@ ASSUMPTIONS = [
 
 NSH_SINGLE = 64
 NSH_MULTI = 16
+NSH_ISO = 4
 
 
 def world_description(tier):
@@ -62,7 +63,7 @@ def world_description(tier):
 def shards(tier, seed):
     return [{"tier": tier, "part": "single", "i": i} for i in range(NSH_SINGLE)] + [
         {"tier": tier, "part": "multi", "i": i} for i in range(NSH_MULTI)
-    ]
+    ] + [{"tier": tier, "part": "iso", "i": i} for i in range(NSH_ISO)]
 
 
 # ---------------------------------------------------------------------------------------------------------
@@ -176,7 +177,9 @@ def compare_models(res, case, mode, parsed, rec, flavour):
         k = g["locus_tag"] or "tx:" + "|".join(sorted(str(t["transcript_id"]) for t in g["transcripts"]))
         got.setdefault(k, []).append(g)
     if sorted(got) != sorted(e["key"] for e in exp) or any(len(v) != 1 for v in got.values()):
-        dev("genes", sorted((k, len(v)) for k, v in got.items()), sorted(e["key"] for e in exp))
+        multi = [e for e in exp if len(e["transcripts"]) > 1]
+        dev("genes", sorted((k, len(v)) for k, v in got.items()), sorted(e["key"] for e in exp),
+            **(dict(n_isoforms=max(len(e["transcripts"]) for e in multi), coding=multi[0]["transcripts"][0]["cds"] is not None) if multi else {}))
         return
     # the returned collection lists its genes by position (the start of their gene rows), whatever their locus tags spell
     by_key = {e["key"]: e["gene_start"] for e in exp}
@@ -187,25 +190,20 @@ def compare_models(res, case, mode, parsed, rec, flavour):
         g = got[e["key"]][0]
         if g["locus_tag"] != e["locus_tag"]:
             dev("locus_tag", g["locus_tag"], e["locus_tag"])
-        if len(g["transcripts"]) != 1:
-            dev("transcript-count", len(g["transcripts"]), 1, key=e["key"])
+        etx = e["transcripts"]
+        niso = len(etx)
+        if len(g["transcripts"]) != niso:
+            dev("transcript-count", len(g["transcripts"]), niso, key=e["key"], n_isoforms=niso, coding=etx[0]["cds"] is not None)
             continue
-        t = g["transcripts"][0]
-        if t["strand"] != e["strand"]:
-            dev("strand", t["strand"], e["strand"])
-        if t["exons"] != e["exons"]:
-            dev("exons", t["exons"], e["exons"], strand=e["strand"])
-        # touching CDS blocks (0-bp intron) may come back merged (the parser intersects the CDS with the transcript
-        # span, which normalises): CDS structure is compared as maximal runs, and the frames must describe ONE
-        # uninterrupted reading frame that begins with the source start frame over the blocks as they came back
-        if (t["cds"] is None) != (e["cds"] is None) or (e["cds"] is not None and _runs(t["cds"]) != _runs(e["cds"])):
-            dev("cds", t["cds"], e["cds"], strand=e["strand"])
-        elif e["cds"] is not None:
-            if t["cds"] != e["cds"]:
-                res.note("parse", "touching-cds-blocks-merged")
-            ef = list(W.frames_for(t["cds"], e["strand"], e["f0"]))
-            if t["frames"] != ef:
-                dev("frames", t["frames"], ef, f0=e["f0"], cds=t["cds"], strand=e["strand"])
+        if niso == 1:
+            pairs = [(g["transcripts"][0], etx[0])]
+        else:
+            by_id = {t["transcript_id"]: t for t in g["transcripts"]}
+            if len(by_id) != niso or sorted(map(str, by_id)) != sorted(x["transcript_id"] for x in etx):
+                dev("transcript-ids", sorted(map(str, (t["transcript_id"] for t in g["transcripts"]))), sorted(x["transcript_id"] for x in etx),
+                    n_isoforms=niso, coding=etx[0]["cds"] is not None)
+                continue
+            pairs = [(by_id[x["transcript_id"]], x) for x in etx]
         if g["gene_id"] != e["gene_id"]:
             dev("gene_id", g["gene_id"], e["gene_id"])
         if e["gene_symbol"] is not None:
@@ -213,15 +211,32 @@ def compare_models(res, case, mode, parsed, rec, flavour):
                 dev("gene_symbol", g["gene_symbol"], e["gene_symbol"])
         elif g["gene_symbol"] not in (None, e["gene_id"]):
             dev("gene_symbol", g["gene_symbol"], [None, e["gene_id"]])
-        if t["transcript_id"] != e["transcript_id"]:
-            dev("transcript_id", t["transcript_id"], e["transcript_id"])
-        if t["protein_id"] != e["protein_id"]:
-            dev("protein_id", t["protein_id"], e["protein_id"])
-        if e["transcript_symbol"] is not None:
-            if t["transcript_symbol"] != e["transcript_symbol"] and e["transcript_symbol"] not in t["qualifiers"].get("transcript_name", []):
-                dev("transcript_symbol", t["transcript_symbol"], e["transcript_symbol"])
-        if t["biotype"] != e["biotype"] or g["biotype"] != e["biotype"]:
-            dev("biotype", [g["biotype"], t["biotype"]], e["biotype"])
+        for t, x in pairs:
+            kw = dict(n_isoforms=niso, coding=x["cds"] is not None) if niso > 1 else {}
+            if t["strand"] != x["strand"]:
+                dev("strand", t["strand"], x["strand"], **kw)
+            if t["exons"] != x["exons"]:
+                dev("exons", t["exons"], x["exons"], strand=x["strand"], **kw)
+            # touching CDS blocks (0-bp intron) may come back merged (the parser intersects the CDS with the transcript
+            # span, which normalises): CDS structure is compared as maximal runs, and the frames must describe ONE
+            # uninterrupted reading frame that begins with the source start frame over the blocks as they came back
+            if (t["cds"] is None) != (x["cds"] is None) or (x["cds"] is not None and _runs(t["cds"]) != _runs(x["cds"])):
+                dev("cds", t["cds"], x["cds"], strand=x["strand"], **kw)
+            elif x["cds"] is not None:
+                if t["cds"] != x["cds"]:
+                    res.note("parse", "touching-cds-blocks-merged")
+                ef = list(W.frames_for(t["cds"], x["strand"], x["f0"]))
+                if t["frames"] != ef:
+                    dev("frames", t["frames"], ef, f0=x["f0"], cds=t["cds"], strand=x["strand"], **kw)
+            if t["transcript_id"] != x["transcript_id"]:
+                dev("transcript_id", t["transcript_id"], x["transcript_id"], **kw)
+            if t["protein_id"] != x["protein_id"]:
+                dev("protein_id", t["protein_id"], x["protein_id"], **kw)
+            if x["transcript_symbol"] is not None:
+                if t["transcript_symbol"] != x["transcript_symbol"] and x["transcript_symbol"] not in t["qualifiers"].get("transcript_name", []):
+                    dev("transcript_symbol", t["transcript_symbol"], x["transcript_symbol"], **kw)
+            if t["biotype"] != x["biotype"] or g["biotype"] != x["biotype"]:
+                dev("biotype", [g["biotype"], t["biotype"]], x["biotype"], **kw)
 
 
 def check_record(res, rec, flavour, upd):
@@ -307,6 +322,13 @@ def run_shard(shard):
                         check_record(res, rec, flavour, upd)
         res.sample({"rec": {"genome": "A", "genes": [dict(exons=[[3, 5], [6, 9]], strand="-", kind="coding", cds=[1, 5], f0=1, ids=0)],
                             "fcs": []}, "flavour": "EUKARYOTIC", "upd": True}, cap=1)
+    elif part == "iso":
+        for idx, rec in enumerate(W.isoform_records(tier)):
+            if idx % NSH_ISO != si:
+                continue
+            for flavour in W.FLAVOURS:
+                for upd in (False, True):
+                    check_record(res, rec, flavour, upd)
     else:
         for idx, rec in enumerate(W.multi_gene_records(tier)):
             if idx % NSH_MULTI != si:
@@ -347,4 +369,28 @@ def _m_sorted_same_start(d):
     return d.get("mode") == "SORTED" and d["sig"].startswith("parse-") and d["sig"] not in ("parse-raises", "parse-sequence", "parse-fc-order")
 
 
-MATCHERS = {"c12_minus_part_order": _m_minus_part_order, "c12_sorted_same_start": _m_sorted_same_start}
+def _m_euk_coding_isoforms(d):
+    """eukaryotic flavour, a gene with two or more CODING isoforms: every parser mode keeps the first mRNA feature only
+    ("Extra transcripts will be skipped") and pairs it with each CDS, so every isoform comes back with the first one's
+    identifier and exons"""
+    if d["case"].get("flavour") != "EUKARYOTIC" or d["sig"] != "parse-transcript-ids" or not d.get("coding") or d.get("n_isoforms", 0) < 2:
+        return False
+    return len(set(d["observed"])) == 1 and d["observed"][0] == d["expected"][0] and len(d["observed"]) == len(d["expected"])
+
+
+def _m_sorted_nc_isoforms(d):
+    """SORTED mode, a NON-coding gene with two or more transcripts: grouping by position starts a new gene at every
+    non-coding transcript row, so the gene comes back as one gene per isoform, all with the same locus tag"""
+    nc_iso = [g for g in d["case"]["rec"]["genes"] if g.get("iso") and g["kind"] != "coding"]
+    if not nc_iso:
+        return False
+    if d["sig"] == "modes-disagree-SORTED":
+        return True
+    if d.get("mode") != "SORTED" or d["sig"] != "parse-genes" or d.get("coding") is not False:
+        return False
+    counts = sorted(n for _, n in d["observed"])
+    return counts == sorted([1] * (len(d["expected"]) - len(nc_iso)) + [1 + len(g["iso"]) for g in nc_iso])
+
+
+MATCHERS = {"c12_minus_part_order": _m_minus_part_order, "c12_sorted_same_start": _m_sorted_same_start,
+            "c12_euk_coding_isoforms": _m_euk_coding_isoforms, "c12_sorted_nc_isoforms": _m_sorted_nc_isoforms}
